@@ -114,7 +114,7 @@ def exBase : Route.Base Unit String where
 example : Route.BaseOK exBase (fun _ => True) := fun r0 _ _ _ _ _ _ => ⟨r0, [], rfl, trivial⟩
 
 /-- the initial composite state (empty cache, registry, history and queues) satisfies the invariant -/
-example : CInv lower ettl (Route.Inv (fun _ : Unit => True)) ⟨{}, [], [], [], {}, none, ((), {})⟩ :=
+example : CInv lower ettl (Route.Inv (fun _ : Unit => True)) ⟨{}, [], [], [], {}, [], [], none, ((), {})⟩ :=
   CInv.init lower ettl (Route.Inv (fun _ : Unit => True)) ((), {})
     (show Route.Inv (fun _ : Unit => True) ((), {}) from ⟨trivial, Route.QShape.init, Route.QShape.init⟩)
 
